@@ -1058,6 +1058,16 @@ pub fn k_labelctx() -> Class {
     Class { name: "Klabelctx", leaves, unary, binary, ternary: vec![] }
 }
 
+/// Focused class (C17): secondary errors (validate, recovery) raised INSIDE a labelled parser, with nothing
+/// above that backtracks - so that they are reported whether the labelled parser goes on to succeed or to fail,
+/// and must carry the as_context frame either way.
+pub fn k_labelemit() -> Class {
+    let leaves = vec![Just('a'), Just('b'), Any];
+    let unary = vec![u1(|a| Some(Validate(a, 1))), u1(|a| Some(Labelled(a, true))), u1(|a| Some(Labelled(a, false))), u1(|a| Some(MapErr(a)))];
+    let binary = vec![u2(|a, c| Some(Then(a, c))), u2(|a, f| Some(Recover(a, f)))];
+    Class { name: "Klabelemit", leaves, unary, binary, ternary: vec![] }
+}
+
 /// Focused map_err class (C17): a map_err'd parser that *succeeds* leaving an error behind (or_not), next to
 /// errors with multi-token spans (try_map over a sequence) and context stacks (as_context) pending at the
 /// same position - so that the direction in which map_err merges errors back is observable.
